@@ -59,6 +59,12 @@ type expOp struct {
 	hook0   int
 	afterCl bool // started after a Close call was released
 	t0, t1  time.Duration
+	// an impatient caller: the hook call that brings the sync's count of
+	// hook calls above cancelAfter ends the context of the call
+	cancel      context.CancelFunc
+	cancelAfter int
+	nhooks      int
+	cancelled   bool
 }
 
 type evSend struct {
@@ -99,6 +105,7 @@ type dsWorld struct {
 	straightReturn  bool
 	atCloseReturn   string
 	lksLate         bool
+	lks             bool // the subscriber has a last-known-sync function
 	w               *World
 	r               *simkit.Run
 	mode            dsMode
@@ -335,6 +342,7 @@ func runDsync(r *simkit.Run, c Cfg, mode dsMode) {
 		// callback is a scheduling point), and it asks for the latest sync
 		// itself now and then
 		lks = true
+		d.lks = true
 		d.lksLate = tp.Chance(2, 3, "lks.late")
 		sites["lks.call"] = true
 		r.EnableSites(sites)
@@ -360,6 +368,18 @@ func runDsync(r *simkit.Run, c Cfg, mode dsMode) {
 	}
 	d.sub = w.NewSubscriber(sopts...)
 	d.sub.ParkHooks = true
+	d.sub.OnAnyHook = func(h HookCall) {
+		for _, e := range d.exps {
+			if e.gid != h.GID || e.done || e.cancel == nil || e.cancelled {
+				continue
+			}
+			if e.nhooks++; e.nhooks > e.cancelAfter {
+				e.cancelled = true
+				e.cancel()
+				r.Fault("cancel-in-hook")
+			}
+		}
+	}
 	r.Logf("~cfg", "mode=%s pubs=%d limit=%d idleTTL=%v seg=%d sites=%v", mode.name, npub, d.limit, idle, seg, on)
 
 	// the witness listener is registered before anything happens
@@ -442,8 +462,16 @@ func runDsync(r *simkit.Run, c Cfg, mode dsMode) {
 				}
 				op := &expOp{pub: pub, task: name, gid: gid, start: r.Step(), hook0: len(d.sub.Hooks()), afterCl: d.closeCalled, t0: r.SimTime()}
 				d.exps = append(d.exps, op)
-				t.Logf("SyncAdChain(%s)", pub.Name)
-				op.got, op.err = d.sub.Sub.SyncAdChain(bg, pub.AddrInfo())
+				ctx := bg
+				if tp.Chance(1, 5, "impatient") {
+					ctx, op.cancel = context.WithCancel(bg)
+					op.cancelAfter = tp.Choose(3, "impatientAfter")
+				}
+				t.Logf("SyncAdChain(%s) impatient=%v", pub.Name, op.cancel != nil)
+				op.got, op.err = d.sub.Sub.SyncAdChain(ctx, pub.AddrInfo())
+				if op.cancel != nil {
+					op.cancel()
+				}
 				op.end = r.Step()
 				op.t1 = r.SimTime()
 				if op.t1-op.t0 > d.idleTTL {
@@ -1203,6 +1231,15 @@ func isTimeout(err error) bool {
 	return errors.Is(err, context.DeadlineExceeded) || (errors.As(err, &ne) && ne.Timeout())
 }
 
+func (d *dsWorld) pubNamed(name string) *PubNode {
+	for _, p := range d.pubs {
+		if p.Name == name {
+			return p
+		}
+	}
+	return nil
+}
+
 func (d *dsWorld) finalChecks() {
 	r, w, o := d.r, d.w, d.mode.name
 	closed := d.closeCalled
@@ -1365,6 +1402,25 @@ func (d *dsWorld) finalChecks() {
 			if sy == nil || len(sy.calls) == 0 {
 				continue
 			}
+			// the count is the length of the chain segment the sync covered:
+			// from its head down to the start of the chain, or to just
+			// above an advertisement that was latest-sync before (one that
+			// an earlier notification named, or that the last-known-sync
+			// function answers)
+			if pi := d.pubNamed(sd.peer); pi != nil && pi.AdIndex(e.Cid) >= 0 {
+				hi := pi.AdIndex(e.Cid)
+				okCount := e.Count == hi+1 || (d.lks && e.Count == hi)
+				for j := 0; j < i && !okCount; j++ {
+					if p := wg[j]; p.Err == nil && p.PeerID == e.PeerID {
+						if lo := pi.AdIndex(p.Cid); lo >= 0 && lo < hi && e.Count == hi-lo {
+							okCount = true
+						}
+					}
+				}
+				if !okCount {
+					r.Violate(o+".count", "notification #%d for %s reports %d blocks: that is neither the distance to the start of the chain nor to an advertisement named by an earlier notification for %s", i, w.CidName(e.Cid), e.Count, sd.peer)
+				}
+			}
 			// with segmentation a sync's count covers all its segments
 			if e.Count != len(sy.calls) {
 				r.Violate(o+".count", "notification #%d for %s reports %d blocks, the hook was called %d times in that sync", i, w.CidName(e.Cid), e.Count, len(sy.calls))
@@ -1498,7 +1554,7 @@ func (d *dsWorld) closeChecks() {
 	for _, e := range d.exps {
 		if !e.done {
 			r.Violate(o+".close", "explicit sync by %s never returned", e.task)
-		} else if !e.afterCl && e.err != nil && !d.holdAsync && !isTimeout(e.err) && !strings.Contains(e.err.Error(), ": 204") && !d.clientGaveUp(e) {
+		} else if !e.afterCl && e.err != nil && !e.cancelled && !d.holdAsync && !isTimeout(e.err) && !strings.Contains(e.err.Error(), ": 204") && !d.clientGaveUp(e) {
 			// (a publisher without advertisements answers the head query
 			// with 204, which the sync reports as an error; a request the
 			// client gave up on - its time limit - is a fault of the run)
